@@ -105,6 +105,14 @@ def targeted(rng, tier):
         out.append({"k": "union", "name": names.fresh(), "ver": [1, 0],
                     "fs": [["v%d" % i, u8 if i % 2 else {"k": "prim", "p": "uint", "w": 1 + i % 17, "c": "sat"}] for i in range(nv)]})
     out.append({"k": "union", "name": names.fresh(), "ver": [1, 0], "fs": [["only", u8]]})  # rejected: one variant
+    # constants are attributes but not variants: they must not influence the tag width
+    for nv, nc in [(200, 100), (255, 2), (256, 1), (3, 300), (2, 1)]:
+        out.append({"k": "union", "name": names.fresh(), "ver": [1, 0], "consts": nc, "fs": [["v%d" % i, u8] for i in range(nv)]})
+    # arrays of arrays (API only): a fixed array of a fixed array of something variable
+    vv = {"k": "var", "e": u8, "n": 2}
+    out.append({"k": "fix", "e": {"k": "fix", "e": vv, "n": 2}, "n": 3})
+    out.append({"k": "fix", "e": {"k": "var", "e": {"k": "fix", "e": vv, "n": 2}, "n": 2}, "n": 2})
+    out.append({"k": "struct", "name": names.fresh(), "ver": [1, 0], "fs": [["a", {"k": "prim", "p": "bool"}], ["b", {"k": "fix", "e": {"k": "fix", "e": vv, "n": 3}, "n": 2}]]})
     # variants / fields whose length sets agree in min, max and residues modulo 32 but differ as sets
     def arr(w, n):
         return {"k": "var", "e": {"k": "prim", "p": "uint", "w": w, "c": "sat"}, "n": n}
@@ -141,7 +149,7 @@ def generate(rng, tier):
         if via == "text":
             t = tygen.gen_composite(rng, depth, names)
         else:
-            t = tygen.gen_type(rng, depth, names)
+            t = tygen.gen_type(rng, depth, names, nested_arrays=True)   # arrays of arrays exist only through the API
         cases.append(mk_case(rng, t, tier, via))
         streams.append("random")
     return cases, streams
